@@ -663,6 +663,52 @@ def generate_cons_obj(cons_src):
             + "\n".join(out) + "\nend Opw.SrcCons\n")
 
 
+def min_distance_src(coll_src):
+    """`SafetyDistances::min_distance`: a chain of map look-ups (`if let Some(r) = self.special_distances.get(&(a, b))`), index
+    tests against ENV_START_IDX and field returns; the order of the branches is what is translated"""
+    body, _ = fn_body(coll_src, "min_distance")
+    flat = " ".join(re.sub(r"//[^\n]*", "", body).split())
+    names = {"from": "from_", "to": "to_"}
+    fields = {"to_environment": "s.toEnvironment", "to_robot_default": "s.toRobotDefault"}
+    lines, rest, closed = [], flat, False
+    while rest:
+        rest = rest.strip()
+        if rest.startswith("else "):
+            rest = rest[5:].strip()
+        m = re.match(r"if let Some\((\w+)\) = self\.special_distances\.get\(&\((\w+), (\w+)\)\) \{ return (\w+); \}", rest)
+        if m:
+            r_, a, b, ret = m.groups()
+            if r_ != ret or a not in names or b not in names:
+                raise TranslateError("min_distance: unsupported look-up `" + m.group(0) + "`")
+            lines.append(f"  match lookupPair s.special {names[a]} {names[b]} with\n  | some r => r\n  | none =>")
+            rest = rest[m.end():]
+            continue
+        m = re.match(r"if ([^{]*) \{ return &self\.(\w+); \}", rest)
+        if m:
+            cond, fld = m.groups()
+            parts = []
+            for c in cond.split("||"):
+                mm = re.match(r"^\s*(\w+) as usize (>=|>|<=|<) ENV_START_IDX\s*$", c)
+                if not mm or mm.group(1) not in names:
+                    raise TranslateError("min_distance: unsupported condition `" + cond + "`")
+                parts.append(f"{names[mm.group(1)]} {({'>=': '≥', '>': '>', '<=': '≤', '<': '<'})[mm.group(2)]} envStart")
+            if fld not in fields:
+                raise TranslateError("min_distance: unknown field " + fld)
+            lines.append(f"  if {' || '.join(parts)} then {fields[fld]} else")
+            rest = rest[m.end():]
+            continue
+        m = re.match(r"\{ return &self\.(\w+); \}$", rest)
+        if m and m.group(1) in fields:
+            lines.append(f"  {fields[m.group(1)]}")
+            closed = True
+            break
+        raise TranslateError("min_distance: cannot read `" + rest[:80] + "`")
+    if not closed:
+        raise TranslateError("min_distance: no final branch")
+    return ("/-- `SafetyDistances::min_distance`: the branches in source order (`lookupPair` is the hash-map look-up) -/\n"
+            "def minDistanceSrc (s : Safety R) (from_ to_ : Nat) : R :=\n" + "\n".join(lines) + "\n")
+
+
 def generate_coll(coll_src):
     """`CollisionTask::collides`: the decision logic with the three parry3d queries as named oracles"""
     body, _ = fn_body(coll_src, "collides")
@@ -687,12 +733,13 @@ def generate_coll(coll_src):
     def _none(e):
         raise TranslateError("collides: falls off the end")
     term = tr(P(tokenize(flat)).stmts_until_eof(), env, cx, _none, 1)
+    md = min_distance_src(coll_src)
     return ("/- GENERATED by tools/rs2lean_ctl.py from /repo/src/collisions.rs on every run. Do not edit. -/\n"
             "import OpwVerif.Collisions\nset_option linter.unusedVariables false\nnamespace Opw.SrcColl\nopen Opw\n"
             "variable {R : Type} [OpwNum R]\n\n"
             "/-- `CollisionTask::collides` (`Some(pair)` = true): `r_min` is the pair's entry of the safety table, the three parry3d\n"
             "queries (intersection test, AABB pre-filter, distance) are parameters -/\n"
-            "def taskCollidesSrc (r_min_ : R) (intersects_ aabbNear_ : Bool) (distance_ : R) : Bool :=\n  " + term + "\n\nend Opw.SrcColl\n")
+            "def taskCollidesSrc (r_min_ : R) (intersects_ aabbNear_ : Bool) (distance_ : R) : Bool :=\n  " + term + "\n\n" + md + "\nend Opw.SrcColl\n")
 
 
 if __name__ == "__main__":
